@@ -216,13 +216,16 @@ Section Decoder.
   Lemma ann_ok_arr : forall l, ann_ok (AArr l) <-> elems_ok l.
   Proof. induction l as [|[c o] r IH]; simpl in *; tauto. Qed.
 
-  Lemma entries_ok_app : forall a b, entries_ok a -> entries_ok b -> entries_ok (a ++ b).
-  Proof. induction a as [|[k [c o]] r IH]; simpl; intros; auto. tauto. Qed.
+  Lemma entries_ok_app : forall a b, entries_ok a -> entries_ok b -> entries_ok (a ++ b)%list.
+  Proof.
+    induction a as [|[k [c o]] r IH]; simpl; intros b Ha Hb; auto.
+    destruct Ha as (H1 & H2 & H3). repeat split; auto.
+  Qed.
 
   Lemma obj_entries_ok : forall a fs, ann_ok a -> obj_entries a = Some fs -> entries_ok fs.
   Proof.
     intros a fs Ha H. destruct a; simpl in H; inversion H; subst; simpl; auto.
-    apply ann_ok_obj; auto.
+    all: try (apply ann_ok_obj; auto).
   Qed.
 
   Lemma field_vals_ok : forall f fs, entries_ok fs -> Forall ann_ok (field_vals f fs).
@@ -238,7 +241,7 @@ Section Decoder.
     - inversion H; simpl; auto.
     - inversion Hall; subst. destruct a; try discriminate; auto.
       destruct (inner_entries r) eqn:E; try discriminate. inversion H; subst.
-      apply entries_ok_app; auto. apply ann_ok_obj; auto.
+      apply entries_ok_app; auto; try (apply ann_ok_obj; auto).
   Qed.
 
   Definition nil_or_wf (r : rvalue) : Prop := r = RNil \/ wf T r = true.
@@ -321,14 +324,432 @@ Section Decoder.
       inversion H; subst. simpl. rewrite Z.eqb_refl. simpl.
       eapply (assign_inv N conv_float (fun b => f_finite b = true)); [ | | exact Ez].
       + reflexivity.
-      + intros a0 x _ Hc. destruct a0; simpl in Hc; try discriminate.
-        * destruct (z2f z) eqn:E; inversion Hc; subst.
-          (* z2f produces finite bits *)
-          clear - E. unfold z2f in E.
-          destruct (Z.abs_N z =? 0)%N; [inversion E; reflexivity|].
-          revert E. generalize (if (z <? 0)%Z then 9223372036854775808%N else 0%N) as sg.
-          intros sg E. admit.
-        * destruct (f_finite b) eqn:E; inversion Hc; subst; auto.
-    - admit. - admit. - admit. - admit. - admit. - admit. - admit. - admit.
-  Admitted.
+      + intros a0 x _ Hc. destruct a0 as [| |z0|b0| | |]; simpl in Hc; try discriminate.
+        * destruct (z2f z0) as [n|] eqn:E; try discriminate.
+          destruct (f_finite n) eqn:E2; inversion Hc; subst; auto.
+        * destruct (f_finite b0) eqn:E; inversion Hc; subst; auto.
+    - (* string *)
+      destruct (assign conv_str EmptyString (field_vals (dk_v T) fs)); try discriminate.
+      inversion H; subst. simpl. apply Z.eqb_refl.
+    - (* null *)
+      inversion H; subst. simpl. apply Z.eqb_refl.
+    - (* computed *)
+      destruct (inner_entries (field_vals (dk_v T) fs)) as [inner|] eqn:Ei; try discriminate.
+      pose proof (inner_entries_ok _ _ Hvs Ei) as Hin.
+      destruct (assign conv_str EmptyString (field_vals (dk_cexpr T) inner)) as [e|]; try discriminate.
+      destruct (last_opt (field_vals (dk_cattrs T) inner)) as [raw|] eqn:El.
+      + destruct (dec_map raw) as [m|] eqn:Em; try discriminate.
+        inversion H; subst. simpl. rewrite Z.eqb_refl. simpl.
+        assert (Hraw : ann_ok raw).
+        { pose proof (field_vals_ok (dk_cattrs T) inner Hin) as F.
+          rewrite Forall_forall in F. apply F.
+          unfold last_opt in El. destruct (rev (field_vals (dk_cattrs T) inner)) eqn:Er; try discriminate.
+          inversion El; subst. apply in_rev. rewrite Er. left; reflexivity. }
+        exact (dec_map_wf raw m Hraw Em).
+      + inversion H; subst. simpl. apply Z.eqb_refl.
+    - (* array *)
+      destruct (inner_entries (field_vals (dk_v T) fs)) as [inner|] eqn:Ei; try discriminate.
+      pose proof (inner_entries_ok _ _ Hvs Ei) as Hin.
+      destruct (assign conv_list [] (field_vals (dk_list T) inner)) as [l|] eqn:El; try discriminate.
+      destruct (existsb is_nil l) eqn:En; try discriminate.
+      inversion H; subst. simpl. rewrite Z.eqb_refl. simpl.
+      apply no_nil_wf; auto.
+      eapply (assign_inv _ conv_list (Forall nil_or_wf)); [ | | exact El].
+      + constructor.
+      + intros a0 x Hin0 Hc.
+        pose proof (field_vals_ok (dk_list T) inner Hin) as F. rewrite Forall_forall in F.
+        specialize (F a0 Hin0).
+        destruct a0; simpl in Hc; try discriminate.
+        * inversion Hc; subst. constructor.
+        * destruct (elems l0) eqn:Ee; try discriminate. inversion Hc; subst.
+          eapply elems_nil_or_wf; [ | exact Ee]. apply ann_ok_arr; auto.
+    - (* dict *)
+      destruct (inner_entries (field_vals (dk_v T) fs)) as [inner|] eqn:Ei; try discriminate.
+      pose proof (inner_entries_ok _ _ Hvs Ei) as Hin.
+      destruct (assign conv_dict [] (field_vals (dk_dict T) inner)) as [m|] eqn:Em; try discriminate.
+      inversion H; subst. simpl. rewrite Z.eqb_refl. simpl.
+      eapply (assign_inv _ conv_dict (fun m => wf_map T m = true)); [ | | exact Em].
+      + reflexivity.
+      + intros a0 x Hin0 Hc.
+        pose proof (field_vals_ok (dk_dict T) inner Hin) as F. rewrite Forall_forall in F.
+        specialize (F a0 Hin0). unfold conv_dict in Hc.
+        destruct (dec_map a0) eqn:Ed; try discriminate. inversion Hc; subst.
+        eapply dec_map_wf; eauto.
+    - (* function *)
+      destruct (inner_entries (field_vals (dk_v T) fs)) as [inner|]; try discriminate.
+      destruct (assign conv_str EmptyString (field_vals (dk_fexpr T) inner)); try discriminate.
+      destruct (assign conv_str EmptyString (field_vals (dk_fname T) inner)); try discriminate.
+      destruct (assign conv_params None (field_vals (dk_fparams T) inner)); try discriminate.
+      inversion H; subst. simpl. apply Z.eqb_refl.
+    - (* native function *)
+      destruct (inner_entries (field_vals (dk_v T) fs)) as [inner|]; try discriminate.
+      destruct (assign conv_str EmptyString (field_vals (dk_nname T) inner)) as [n|]; try discriminate.
+      destruct (mem_str n (natives T)) eqn:En; try discriminate.
+      inversion H; subst. simpl. rewrite Z.eqb_refl, En. reflexivity.
+    - (* native object *)
+      destruct (inner_entries (field_vals (dk_v T) fs)) as [inner|]; try discriminate.
+      destruct (assign conv_str EmptyString (field_vals (dk_oname T) inner)); try discriminate.
+      inversion H; subst. simpl. apply Z.eqb_refl.
+  Qed.
+
+  Lemma annot_ok : forall j, ann_ok (annot T j).
+  Proof.
+    induction j using json_ind'; simpl; auto.
+    - (* array *)
+      induction H as [|x r Hx Hr IH]; simpl; auto.
+      split; [exact Hx|]. split; [|exact IH].
+      intros v Hv. eapply dec_value_wf; eauto.
+    - (* object *)
+      induction H as [|[k x] r Hx Hr IH]; simpl; auto.
+      split; [exact Hx|]. split; [|exact IH].
+      intros v Hv. eapply dec_value_wf; eauto.
+  Qed.
+
+  Theorem of_json_wf : forall j r, of_json T j = Some r -> wf T r = true.
+  Proof. intros j r H. eapply dec_value_wf; [apply annot_ok | exact H]. Qed.
+
+  Theorem of_json_map_wf : forall j m, of_json_map T j = Some m -> wf_map T m = true.
+  Proof. intros j m H. eapply dec_map_wf; [apply annot_ok | exact H]. Qed.
 End Decoder.
+
+(* ------------------------------------------------------------------ C09: round trip *)
+Section Roundtrip.
+  Variable T : json_tags.
+  Hypothesis Hok : tags_ok T = true.
+
+  Ltac from_ok :=
+    let H := fresh "H" in
+    pose proof Hok as H; unfold tags_ok in H; rewrite !andb_true_iff in H;
+    repeat match goal with H : _ /\ _ |- _ => destruct H end;
+    try assumption;
+    try (apply Z.eqb_eq; assumption);
+    try (apply negb_true_iff; assumption).
+
+  Lemma ed_int : e_int T = d_int T. Proof. from_ok. Qed.
+  Lemma ed_float : e_float T = d_float T. Proof. from_ok. Qed.
+  Lemma ed_str : e_str T = d_str T. Proof. from_ok. Qed.
+  Lemma ed_null : e_null T = d_null T. Proof. from_ok. Qed.
+  Lemma ed_computed : e_computed T = d_computed T. Proof. from_ok. Qed.
+  Lemma ed_array : e_array T = d_array T. Proof. from_ok. Qed.
+  Lemma ed_dict : e_dict T = d_dict T. Proof. from_ok. Qed.
+  Lemma ed_func : e_func T = d_func T. Proof. from_ok. Qed.
+  Lemma ed_native : e_native T = d_native T. Proof. from_ok. Qed.
+  Lemma ed_nobj : e_nobj T = d_nobj T. Proof. from_ok. Qed.
+
+  Lemma dispatch_kind_tag : forall k, dispatch T (kind_tag T k) = Some k.
+  Proof.
+    assert (H : dispatch_ok T = true) by from_ok.
+    unfold dispatch_ok in H. rewrite forallb_forall in H.
+    intros k. specialize (H k).
+    assert (Hin : In k [KInt; KFloat; KStr; KNull; KComputed; KArray; KDict; KFunc; KNative; KNObj])
+      by (destruct k; simpl; tauto).
+    specialize (H Hin). destruct (dispatch T (kind_tag T k)) as [k'|]; try discriminate.
+    destruct k, k'; simpl in H; try discriminate; reflexivity.
+  Qed.
+
+  Lemma range_kind_tag : forall k, in_i64b (kind_tag T k) = true.
+  Proof. destruct k; simpl; from_ok. Qed.
+
+  Lemma km_tt : key_match (ek_t T) (dk_t T) = true. Proof. from_ok. Qed.
+  Lemma km_vt : key_match (ek_v T) (dk_t T) = false. Proof. from_ok. Qed.
+  Lemma km_vv : key_match (ek_v T) (dk_v T) = true. Proof. from_ok. Qed.
+  Lemma km_tv : key_match (ek_t T) (dk_v T) = false. Proof. from_ok. Qed.
+  Lemma km_ce : key_match (ek_cexpr T) (dk_cexpr T) = true. Proof. from_ok. Qed.
+  Lemma km_ae : key_match (ek_cattrs T) (dk_cexpr T) = false. Proof. from_ok. Qed.
+  Lemma km_aa : key_match (ek_cattrs T) (dk_cattrs T) = true. Proof. from_ok. Qed.
+  Lemma km_ea : key_match (ek_cexpr T) (dk_cattrs T) = false. Proof. from_ok. Qed.
+  Lemma km_list : key_match (ek_list T) (dk_list T) = true. Proof. from_ok. Qed.
+  Lemma km_dict : key_match (ek_dict T) (dk_dict T) = true. Proof. from_ok. Qed.
+  Lemma km_fee : key_match (ek_fexpr T) (dk_fexpr T) = true. Proof. from_ok. Qed.
+  Lemma km_fne : key_match (ek_fname T) (dk_fexpr T) = false. Proof. from_ok. Qed.
+  Lemma km_fpe : key_match (ek_fparams T) (dk_fexpr T) = false. Proof. from_ok. Qed.
+  Lemma km_fnn : key_match (ek_fname T) (dk_fname T) = true. Proof. from_ok. Qed.
+  Lemma km_fen : key_match (ek_fexpr T) (dk_fname T) = false. Proof. from_ok. Qed.
+  Lemma km_fpn : key_match (ek_fparams T) (dk_fname T) = false. Proof. from_ok. Qed.
+  Lemma km_fpp : key_match (ek_fparams T) (dk_fparams T) = true. Proof. from_ok. Qed.
+  Lemma km_fep : key_match (ek_fexpr T) (dk_fparams T) = false. Proof. from_ok. Qed.
+  Lemma km_fnp : key_match (ek_fname T) (dk_fparams T) = false. Proof. from_ok. Qed.
+  Lemma km_nn : key_match (ek_nname T) (dk_nname T) = true. Proof. from_ok. Qed.
+  Lemma km_oo : key_match (ek_oname T) (dk_oname T) = true. Proof. from_ok. Qed.
+
+  (* ---- which values the two decoding phases see *)
+  Lemma fv_t2 : forall a o1 b o2, field_vals (dk_t T) [(ek_t T, (a, o1)); (ek_v T, (b, o2))] = [a].
+  Proof. intros. unfold field_vals. cbn [filter map fst snd]. rewrite km_tt, km_vt. reflexivity. Qed.
+  Lemma fv_v2 : forall a o1 b o2, field_vals (dk_v T) [(ek_t T, (a, o1)); (ek_v T, (b, o2))] = [b].
+  Proof. intros. unfold field_vals. cbn [filter map fst snd]. rewrite km_tv, km_vv. reflexivity. Qed.
+  Lemma fv_t1 : forall a o1, field_vals (dk_t T) [(ek_t T, (a, o1))] = [a].
+  Proof. intros. unfold field_vals. cbn [filter map fst snd]. rewrite km_tt. reflexivity. Qed.
+
+  Lemma assign_int1 : forall x, in_i64b x = true -> assign conv_int 0%Z [AInt x] = Some x.
+  Proof. intros x H. simpl. rewrite H. reflexivity. Qed.
+
+  Ltac head k :=
+    unfold dec_value, obj_entries; rewrite fv_t2, fv_v2;
+    rewrite (assign_int1 _ (range_kind_tag k));
+    rewrite (dispatch_kind_tag k).
+
+  Lemma dec_int : forall z o1 o2, in_i64b z = true ->
+    dec_value T (AObj [(ek_t T, (AInt (d_int T), o1)); (ek_v T, (AInt z, o2))]) = Some (RInt (d_int T) z).
+  Proof.
+    intros. change (d_int T) with (kind_tag T KInt). head KInt.
+    rewrite assign_int1 by assumption. reflexivity.
+  Qed.
+
+  Lemma dec_float : forall b o1 o2, f_finite b = true ->
+    dec_value T (AObj [(ek_t T, (AInt (d_float T), o1)); (ek_v T, (AFloat b, o2))]) = Some (RFloat (d_float T) b).
+  Proof.
+    intros b o1 o2 H. change (d_float T) with (kind_tag T KFloat). head KFloat.
+    simpl. rewrite H. reflexivity.
+  Qed.
+
+  Lemma dec_str : forall s o1 o2,
+    dec_value T (AObj [(ek_t T, (AInt (d_str T), o1)); (ek_v T, (AStr s, o2))]) = Some (RStr (d_str T) s).
+  Proof. intros. change (d_str T) with (kind_tag T KStr). head KStr. reflexivity. Qed.
+
+  Lemma dec_null : forall o1,
+    dec_value T (AObj [(ek_t T, (AInt (d_null T), o1))]) = Some (RNone (d_null T)).
+  Proof.
+    intros. change (d_null T) with (kind_tag T KNull).
+    unfold dec_value, obj_entries. rewrite fv_t1.
+    rewrite (assign_int1 _ (range_kind_tag KNull)), (dispatch_kind_tag KNull). reflexivity.
+  Qed.
+
+  Lemma dec_arr : forall l o1 o2 o3,
+    dec_value T (AObj [(ek_t T, (AInt (d_array T), o1));
+                       (ek_v T, (AObj [(ek_list T, (AArr l, o3))], o2))]) =
+    match elems l with
+    | None => None
+    | Some l' => if existsb is_nil l' then None else Some (RArr (d_array T) l')
+    end.
+  Proof.
+    intros. change (d_array T) with (kind_tag T KArray). head KArray.
+    cbn [inner_entries app]. unfold field_vals. cbn [filter map fst snd]. rewrite km_list.
+    cbn [map fst snd assign conv_list]. destruct (elems l); reflexivity.
+  Qed.
+
+  Lemma dec_dict : forall l o1 o2 o3,
+    dec_value T (AObj [(ek_t T, (AInt (d_dict T), o1));
+                       (ek_v T, (AObj [(ek_dict T, (AObj l, o3))], o2))]) =
+    option_map (RDict (d_dict T)) (dec_map (AObj l)).
+  Proof.
+    intros. change (d_dict T) with (kind_tag T KDict). head KDict.
+    cbn [inner_entries app]. unfold field_vals. cbn [filter map fst snd]. rewrite km_dict.
+    cbn [map fst snd assign]. unfold conv_dict. destruct (dec_map (AObj l)); reflexivity.
+  Qed.
+
+  Lemma dec_comp0 : forall e o1 o2 o3,
+    dec_value T (AObj [(ek_t T, (AInt (d_computed T), o1));
+                       (ek_v T, (AObj [(ek_cexpr T, (AStr e, o3))], o2))]) =
+    Some (RComputed (d_computed T) e None).
+  Proof.
+    intros. change (d_computed T) with (kind_tag T KComputed). head KComputed.
+    cbn [inner_entries app]. unfold field_vals. cbn [filter map fst snd]. rewrite km_ce, km_ea.
+    reflexivity.
+  Qed.
+
+  Lemma dec_comp : forall e l o1 o2 o3 o4,
+    dec_value T (AObj [(ek_t T, (AInt (d_computed T), o1));
+                       (ek_v T, (AObj [(ek_cexpr T, (AStr e, o3)); (ek_cattrs T, (AObj l, o4))], o2))]) =
+    match dec_map (AObj l) with
+    | None => None
+    | Some m => Some (RComputed (d_computed T) e (Some m))
+    end.
+  Proof.
+    intros. change (d_computed T) with (kind_tag T KComputed). head KComputed.
+    cbn [inner_entries app]. unfold field_vals. cbn [filter map fst snd].
+    rewrite km_ce, km_ea, km_ae, km_aa. reflexivity.
+  Qed.
+
+  Lemma str_elems_jstrs : forall l,
+    str_elems (map (fun x => (annot T x, dec_value T (annot T x))) (map JStr l)) = Some l.
+  Proof. induction l as [|x r IH]; simpl; auto. simpl in IH. rewrite IH. reflexivity. Qed.
+
+  Lemma dec_func : forall n p e o1 o2 o3 o4 o5,
+    dec_value T (AObj [(ek_t T, (AInt (d_func T), o1));
+                       (ek_v T, (AObj [(ek_fexpr T, (AStr e, o3)); (ek_fname T, (AStr n, o4));
+                                       (ek_fparams T, (annot T (match p with None => JNull | Some l => jstrs l end), o5))], o2))]) =
+    Some (RFunc (d_func T) n p e).
+  Proof.
+    intros. change (d_func T) with (kind_tag T KFunc). head KFunc.
+    cbn [inner_entries app]. unfold field_vals. cbn [filter map fst snd].
+    rewrite km_fee, km_fne, km_fpe, km_fen, km_fnn, km_fpn, km_fep, km_fnp, km_fpp.
+    cbn [map fst snd assign conv_str].
+    destruct p as [l|].
+    - unfold jstrs. cbn [annot assign conv_params]. rewrite str_elems_jstrs. reflexivity.
+    - reflexivity.
+  Qed.
+
+  Lemma dec_native : forall n o1 o2 o3, mem_str n (natives T) = true ->
+    dec_value T (AObj [(ek_t T, (AInt (d_native T), o1));
+                       (ek_v T, (AObj [(ek_nname T, (AStr n, o3))], o2))]) = Some (RNative (d_native T) n).
+  Proof.
+    intros n o1 o2 o3 H. change (d_native T) with (kind_tag T KNative). head KNative.
+    cbn [inner_entries app]. unfold field_vals. cbn [filter map fst snd]. rewrite km_nn.
+    cbn [map fst snd assign conv_str]. rewrite H. reflexivity.
+  Qed.
+
+  Lemma dec_nobj : forall n o1 o2 o3,
+    dec_value T (AObj [(ek_t T, (AInt (d_nobj T), o1));
+                       (ek_v T, (AObj [(ek_oname T, (AStr n, o3))], o2))]) = Some (RNObj (d_nobj T) n).
+  Proof.
+    intros. change (d_nobj T) with (kind_tag T KNObj). head KNObj.
+    cbn [inner_entries app]. unfold field_vals. cbn [filter map fst snd]. rewrite km_oo.
+    reflexivity.
+  Qed.
+
+  (* ---- the encoder, unfolded one level *)
+  Lemma to_json_arr_eq : forall l, to_json T (VArr l) =
+    match to_json_items T l with
+    | None => None
+    | Some js => Some (JObj [(ek_t T, JInt (e_array T)); (ek_v T, JObj [(ek_list T, JArr js)])])
+    end.
+  Proof. reflexivity. Qed.
+
+  Lemma to_json_dict_eq : forall l, to_json T (VDict l) =
+    match to_json_entries T l with
+    | None => None
+    | Some js => Some (JObj [(ek_t T, JInt (e_dict T)); (ek_v T, JObj [(ek_dict T, JObj js)])])
+    end.
+  Proof. reflexivity. Qed.
+
+  Lemma to_json_comp_eq : forall e l, to_json T (VComputed e (Some l)) =
+    match to_json_entries T l with
+    | None => None
+    | Some js => Some (JObj [(ek_t T, JInt (e_computed T));
+                             (ek_v T, JObj [(ek_cexpr T, JStr e); (ek_cattrs T, JObj js)])])
+    end.
+  Proof. reflexivity. Qed.
+
+  Definition rt (v : value) : Prop :=
+    tree_value T v = true -> finite_floats v = true ->
+    exists l, to_json T v = Some (JObj l) /\ of_json T (JObj l) = Some (embed T v).
+
+  Definition ann1 (x : json) := (annot T x, dec_value T (annot T x)).
+  Definition ann2 (kv : string * json) := (fst kv, (annot T (snd kv), dec_value T (annot T (snd kv)))).
+
+  Lemma embed_not_nil : forall v, is_nil (embed T v) = false.
+  Proof. destruct v; try reflexivity. destruct attrs; reflexivity. Qed.
+
+  Lemma items_rt : forall l, Forall rt l ->
+    forallb (tree_value T) l = true -> forallb finite_floats l = true ->
+    exists js, to_json_items T l = Some js /\ elems (map ann1 js) = Some (map (embed T) l).
+  Proof.
+    induction 1 as [|x r Hx Hr IH]; simpl; intros Ht Hf.
+    - exists []. split; reflexivity.
+    - apply andb_true_iff in Ht. apply andb_true_iff in Hf. destruct Ht as [Ht1 Ht2], Hf as [Hf1 Hf2].
+      destruct (Hx Ht1 Hf1) as (lx & E1 & E2). destruct (IH Ht2 Hf2) as (js & E3 & E4).
+      rewrite E1, E3. eexists. split; [reflexivity|].
+      cbn [map]. unfold ann1 at 1. unfold of_json in E2. rewrite E2.
+      cbn [annot elems]. rewrite E4. reflexivity.
+  Qed.
+
+  Lemma entries_rt : forall l, Forall (fun kv => rt (snd kv)) l ->
+    forallb (fun kv => tree_value T (snd kv)) l = true ->
+    forallb (fun kv => finite_floats (snd kv)) l = true ->
+    exists js, to_json_entries T l = Some js /\
+               map_entries (map ann2 js) = Some (map (fun kv => (fst kv, embed T (snd kv))) l).
+  Proof.
+    induction 1 as [|[k x] r Hx Hr IH]; simpl; intros Ht Hf.
+    - exists []. split; reflexivity.
+    - apply andb_true_iff in Ht. apply andb_true_iff in Hf. destruct Ht as [Ht1 Ht2], Hf as [Hf1 Hf2].
+      simpl in Hx. destruct (Hx Ht1 Hf1) as (lx & E1 & E2). destruct (IH Ht2 Hf2) as (js & E3 & E4).
+      rewrite E1, E3. eexists. split; [reflexivity|].
+      cbn [map]. unfold ann2 at 1. cbn [fst snd]. unfold of_json in E2. rewrite E2.
+      cbn [annot map_entries]. rewrite E4. reflexivity.
+  Qed.
+
+  Lemma has_key_map : forall A B (f : A -> B) k (l : list (string * A)),
+    has_key k (map (fun kv => (fst kv, f (snd kv))) l) = has_key k l.
+  Proof. induction l as [|[k' v] r IH]; simpl; auto. rewrite IH. reflexivity. Qed.
+
+  Lemma nodup_keys_map : forall A B (f : A -> B) (l : list (string * A)),
+    nodup_keys (map (fun kv => (fst kv, f (snd kv))) l) = nodup_keys l.
+  Proof. induction l as [|[k v] r IH]; simpl; auto. rewrite has_key_map, IH. reflexivity. Qed.
+
+  Lemma no_nil_embed : forall (l : list (string * value)),
+    existsb (fun kv => is_nil (snd kv)) (map (fun kv => (fst kv, embed T (snd kv))) l) = false.
+  Proof. induction l as [|[k v] r IH]; simpl; auto. rewrite embed_not_nil, IH. reflexivity. Qed.
+
+  Lemma dec_map_rt : forall js (l : list (string * value)),
+    nodup_keys l = true ->
+    map_entries (map ann2 js) = Some (map (fun kv => (fst kv, embed T (snd kv))) l) ->
+    dec_map (AObj (map ann2 js)) = Some (map (fun kv => (fst kv, embed T (snd kv))) l).
+  Proof.
+    intros js l Hn E. unfold dec_map. rewrite E.
+    rewrite dedup_last_id by (rewrite nodup_keys_map; exact Hn).
+    rewrite no_nil_embed. reflexivity.
+  Qed.
+
+  Lemma annot_obj : forall l, annot T (JObj l) = AObj (map ann2 l).
+  Proof. reflexivity. Qed.
+  Lemma annot_arr : forall l, annot T (JArr l) = AArr (map ann1 l).
+  Proof. reflexivity. Qed.
+
+  Ltac norm := unfold of_json; cbn [annot map fst snd].
+
+  Theorem json_roundtrip_strong : forall v, rt v.
+  Proof.
+    induction v using value_ind'; unfold rt; intros Ht Hf.
+    - (* int *) simpl in Ht. eexists. split; [reflexivity|].
+      norm. rewrite ed_int. apply dec_int; auto.
+    - (* float *) simpl in Hf. simpl. rewrite Hf. eexists. split; [reflexivity|].
+      norm. rewrite ed_float. apply dec_float; auto.
+    - (* string *) eexists. split; [reflexivity|].
+      norm. rewrite ed_str. apply dec_str.
+    - (* null *) eexists. split; [reflexivity|].
+      norm. rewrite ed_null. apply dec_null.
+    - (* array *)
+      simpl in Ht, Hf. destruct (items_rt l H Ht Hf) as (js & E1 & E2).
+      rewrite to_json_arr_eq, E1. eexists. split; [reflexivity|].
+      norm. rewrite ed_array, dec_arr.
+      match goal with |- context [elems ?X] => replace X with (map ann1 js) by reflexivity end.
+      rewrite E2.
+      assert (En : existsb is_nil (map (embed T) l) = false).
+      { clear. induction l as [|x r IH]; simpl; auto. rewrite embed_not_nil, IH. reflexivity. }
+      rewrite En. reflexivity.
+    - (* dict *)
+      simpl in Ht, Hf. apply andb_true_iff in Ht. destruct Ht as [Ht Hn].
+      destruct (entries_rt l H Ht Hf) as (js & E1 & E2).
+      rewrite to_json_dict_eq, E1. eexists. split; [reflexivity|].
+      norm. rewrite ed_dict, dec_dict.
+      match goal with |- context [dec_map (AObj ?X)] => replace X with (map ann2 js) by reflexivity end.
+      rewrite (dec_map_rt js l Hn E2). reflexivity.
+    - (* function *)
+      eexists. split; [reflexivity|].
+      unfold of_json. rewrite annot_obj. cbn [map]. unfold ann2 at 1 2. cbn [fst snd].
+      rewrite annot_obj. cbn [map]. unfold ann2. cbn [fst snd].
+      change (annot T (JInt (e_func T))) with (AInt (e_func T)).
+      change (annot T (JStr e)) with (AStr e). change (annot T (JStr n)) with (AStr n).
+      rewrite ed_func. apply dec_func.
+    - (* computed, no attributes *)
+      eexists. split; [reflexivity|].
+      norm. rewrite ed_computed. apply dec_comp0.
+    - (* computed with attributes *)
+      simpl in Ht, Hf. apply andb_true_iff in Ht. destruct Ht as [Ht Hn].
+      destruct (entries_rt l H Ht Hf) as (js & E1 & E2).
+      rewrite to_json_comp_eq, E1. eexists. split; [reflexivity|].
+      norm. rewrite ed_computed, dec_comp.
+      match goal with |- context [dec_map (AObj ?X)] => replace X with (map ann2 js) by reflexivity end.
+      rewrite (dec_map_rt js l Hn E2). reflexivity.
+    - (* native function *)
+      simpl in Ht. eexists. split; [reflexivity|].
+      norm. rewrite ed_native. apply dec_native; auto.
+    - (* native object *)
+      eexists. split; [reflexivity|].
+      norm. rewrite ed_nobj. apply dec_nobj.
+  Qed.
+
+  (* req is reflexive, so the restored value is structurally equal to the original *)
+  Lemma lookup_self_in : forall A k (v : A) l, nodup_keys l = true -> In (k, v) l -> lookup k l = Some v.
+  Proof.
+    induction l as [|[k' v'] r IH]; simpl; intros Hn Hin; [tauto|].
+    destruct (has_key k' r) eqn:E; try discriminate.
+    destruct Hin as [Heq | Hin].
+    - inversion Heq; subst. rewrite String.eqb_refl. reflexivity.
+    - destruct (String.eqb_spec k k').
+      + subst. exfalso. clear - E Hin. induction r as [|[k2 v2] r IH]; simpl in *; [tauto|].
+        destruct (String.eqb_spec k' k2); try discriminate.
+        destruct Hin as [H|H]; [inversion H; subst; congruence | auto].
+      + auto.
+  Qed.
+End Roundtrip.
